@@ -223,40 +223,40 @@ Theorem add_signature_spec : forall p sg key, pinv p ->
     (forall i, N.testbit (p_bits p') i = true <->
                N.testbit (p_bits p) i = true \/
                (code = 0 /\ exists ks, key = Some ks /\ In i ks)) /\
-    (code = 0 -> verify key (p_msg p) sg = true).
+    (code = 0 -> verify key (p_msg p) sg = true) /\ code <= 3.
 Proof.
   intros p sg key [h Hinv]. pose proof Hinv as (Hwf & Hgen & Hex). unfold add_signature, tree_index.
   destruct (index_from (t_keys (p_tree p)) key 0) as [idx|] eqn:Ei.
   2:{ exists p, 1. split; [reflexivity|]. split; [exists h; exact Hinv|]. do 4 (split; [auto|]).
-      split; [|discriminate]. intro i. split; [auto|]. intros [A|[A _]]; [exact A|discriminate]. }
+      split; [|split; [discriminate|lia]]. intro i. split; [auto|]. intros [A|[A _]]; [exact A|discriminate]. }
   apply index_from_spec in Ei. destruct Ei as [_ Hk]. replace (idx - 0) with idx in Hk by lia.
   pose proof (nthN_some_lt _ _ _ _ Hk) as Hlt. rewrite (wf_keys_len _ _ Hwf) in Hlt.
   destruct (tree_get_spec h (p_tree p) idx Hwf) as [(_ & k & s & Hk2 & Hs & Hg)|(Hge & _)]; [|lia].
   rewrite Hk in Hk2. inversion Hk2; subst k. clear Hk2. rewrite Hg.
-  assert (Hnochange : forall code, code <> 0 ->
+  assert (Hnochange : forall code, code <> 0 -> code <= 3 ->
     exists p' code', Ok (p, code) = Ok (p', code') /\ pinv p' /\
     p_msg p' = p_msg p /\ p_hash p' = p_hash p /\
     t_keys (p_tree p') = t_keys (p_tree p) /\ t_n (p_tree p') = t_n (p_tree p) /\
     (forall i, N.testbit (p_bits p') i = true <->
                N.testbit (p_bits p) i = true \/ (code' = 0 /\ exists ks, key = Some ks /\ In i ks)) /\
-    (code' = 0 -> verify key (p_msg p) sg = true)).
-  { intros code Hc. exists p, code. split; [reflexivity|]. split; [exists h; exact Hinv|]. do 4 (split; [auto|]).
-    split; [|congruence]. intro i. split; [auto|]. intros [A|[A _]]; [exact A|congruence]. }
+    (code' = 0 -> verify key (p_msg p) sg = true) /\ code' <= 3).
+  { intros code Hc Hc3. exists p, code. split; [reflexivity|]. split; [exists h; exact Hinv|]. do 4 (split; [auto|]).
+    split; [|split; [congruence|assumption]]. intro i. split; [auto|]. intros [A|[A _]]; [exact A|congruence]. }
   destruct s as [hs|].
   - destruct (Hgen _ _ Hs) as (ks & Hk' & Hne & ->). rewrite Hk in Hk'. inversion Hk'; subst key. clear Hk'.
-    destruct (decode sg) as [g|] eqn:Ed; [|apply Hnochange; discriminate].
+    destruct (decode sg) as [g|] eqn:Ed; [|apply Hnochange; [discriminate|lia]].
     assert (g = sg) by (destruct sg; cbn in Ed; congruence). subst g.
-    destruct (bsig_eqb sg (SAgg (p_msg p) ks)) eqn:Eq; [|apply Hnochange; discriminate].
+    destruct (bsig_eqb sg (SAgg (p_msg p) ks)) eqn:Eq; [|apply Hnochange; [discriminate|lia]].
     apply bsig_eqb_eq in Eq. subst sg.
     exists p, 0. split; [reflexivity|]. split; [exists h; exact Hinv|]. do 4 (split; [auto|]). split.
     + intro i. split; [auto|]. intros [A|(_ & ks' & A & B)]; [exact A|]. inversion A; subst ks'.
       eapply set_node_bits; eauto.
-    + intros _. apply verify_true. exists ks. auto.
-  - destruct (verify key (p_msg p) sg) eqn:Ev; cbn [negb]; [|apply Hnochange; discriminate].
+    + split; [|lia]. intros _. apply verify_true. exists ks. auto.
+  - destruct (verify key (p_msg p) sg) eqn:Ev; cbn [negb]; [|apply Hnochange; [discriminate|lia]].
     pose proof Ev as Ev'. apply verify_true in Ev. destruct Ev as (ks & -> & Hne & ->). cbn [decode].
     destruct (tree_add_signature_spec (p_msg p) h (p_tree p) idx ks Hinv Hk Hne) as (t1 & A1 & A2 & A3 & A4 & A5).
     rewrite A1. exists (set_tree p t1), 0. unfold p_bits, set_tree. cbn [p_tree p_msg p_hash].
-    split; [reflexivity|]. split; [exists h; exact A2|]. do 4 (split; [auto|]). split; [|auto].
+    split; [reflexivity|]. split; [exists h; exact A2|]. do 4 (split; [auto|]). split; [|split; [auto|lia]].
     intro i. rewrite A5. split.
     + intros [A|A]; [auto|]. right. split; [reflexivity|]. exists ks. auto.
     + intros [A|(_ & ks' & A & B)]; [auto|]. inversion A; subst. auto.
